@@ -242,7 +242,8 @@ func genC16Maps(level int) []*MapScen {
 	var out []*MapScen
 	opCPark := MIn{Op: MCompute, Fn: FnSet} // its user function contains a Park point
 	readers := []MIn{opLoad, opLoS, opLoC, opSize}
-	for _, c := range mapKinds {
+	kinds := []ContainerKind{CMap, CMapOfInt, CMapOfStr, CMapOfStruct}
+	for ci, c := range kinds {
 		add := func(ms *MapScen) {
 			ms.C = c
 			ms.NoBlock = []bool{true, false}
@@ -250,8 +251,31 @@ func genC16Maps(level int) []*MapScen {
 			out = append(out, ms)
 		}
 		stallers := []MIn{opStore, opDelete, opLaS, opCPark, opCDel, opLoC, opClear, opRange}
+		if ci >= 2 {
+			stallers = []MIn{opStore, opDelete, opCPark, opClear} // secondary key types: the core pairs
+		}
 		for _, rd := range readers {
 			hit := rd.Op == MLoadOrStore || rd.Op == MLoadOrCompute
+			if ci < 2 {
+				// lookups through an overflow bucket and through a very long chain
+				for _, st := range []MIn{opStore, opDelete, opCPark} {
+					for _, ff := range []bool{false, true} {
+						add(&MapScen{Rel: RelSD, NKeys: 3, Init: []int{1, 1, 0}, Table: TChain2, FillFirst: ff, Threads: [][]MIn{{on(rd, 0)}, {on(st, 1)}}})
+						add(&MapScen{Rel: RelSD, NKeys: 3, Init: []int{1, 1, 0}, Table: TChain2, FillFirst: ff, Threads: [][]MIn{{on(rd, 0)}, {on(st, 2)}}})
+					}
+					add(&MapScen{Rel: RelSD, NKeys: 3, Init: []int{1, 1, 0}, Table: TLongChain, Threads: [][]MIn{{on(rd, 0)}, {on(st, 1)}}})
+					if rd.Op == MLoad {
+						add(&MapScen{Rel: RelSD, NKeys: 3, Init: []int{1, 1, 0}, Table: TLongChain, Threads: [][]MIn{{on(rd, 2)}, {on(st, 2)}}})
+					}
+				}
+				// two stallers
+				ms3 := &MapScen{Rel: RelSS, NKeys: 3, Init: []int{1, 1, 0}, Table: TPlain, Threads: [][]MIn{{on(rd, 0)}, {on(opCPark, 1)}, {on(opStore, 2)}}}
+				ms3.C, ms3.NoBlock, ms3.MaxSteps = c, []bool{true, false, false}, []int{80, 0, 0}
+				out = append(out, ms3)
+				ms4 := &MapScen{Rel: RelSS, NKeys: 3, Init: []int{1, 1, 0}, Table: TPlain, Threads: [][]MIn{{on(rd, 0)}, {on(opDelete, 1)}, {on(opStore, 2)}}}
+				ms4.C, ms4.NoBlock, ms4.MaxSteps = c, []bool{true, false, false}, []int{80, 0, 0}
+				out = append(out, ms4)
+			}
 			for _, st := range stallers {
 				if hit && st.Op == MClear {
 					continue // the hit path needs the key to stay present
